@@ -96,6 +96,8 @@ func (x *c12) reachesJoin(v ssa.Value) bool {
 					walk(t)
 				} else if callIs(t, "errors", "", "Join") {
 					found = true
+				} else if obj := calleeObj(t); obj != nil && obj.Pkg() != nil && obj.Pkg().Path() == "slices" && (obj.Name() == "Concat" || obj.Name() == "Clone" || obj.Name() == "Insert" || obj.Name() == "Grow" || obj.Name() == "Clip") {
+					walk(t) // the elements of the argument are elements of the result
 				} else if callee := staticCallee(t); callee != nil && x.inPkg(callee) && len(callee.Blocks) > 0 {
 					for i, a := range t.Call.Args {
 						if a == v && i < len(callee.Params) {
@@ -107,6 +109,9 @@ func (x *c12) reachesJoin(v ssa.Value) bool {
 				if t.Val == v {
 					if cell := c12CellOf(t.Addr); cell != nil {
 						c12CellLoads(cell, walk)
+					}
+					if ia, ok := t.Addr.(*ssa.IndexAddr); ok {
+						walk(ia.X) // a slice put into a (variadic) array of slices
 					}
 				}
 			case *ssa.Return:
